@@ -120,10 +120,16 @@ Proof.
       cbn [xnum_of]. unfold xnum_of_int. rewrite xabs_ge_int. lia.
     + exists int_overflow_threshold. split; [now right|]. split; [reflexivity|]. split; [reflexivity|].
       cbn [xnum_of]. unfold xnum_of_int. rewrite xabs_ge_int. lia.
-  - exists T32z. split; [left; lia|]. split; [reflexivity|].
-    assert (Hn : f64_is_nan bits = false) by lia. split.
-    + unfold nn. cbn [xnum_of]. now apply f64_nn.
-    + cbn [xnum_of]. lia.
+  - assert (Hn : f64_is_nan bits = false) by lia.
+    assert (Hnn : nn (PFloat bits)) by (unfold nn; cbn [xnum_of]; now apply f64_nn).
+    destruct (snd ct =? 4) eqn:E4.
+    + exists T32z. split; [left; lia|]. split; [reflexivity|]. split; [exact Hnn|]. cbn [xnum_of]. lia.
+    + exists int_overflow_threshold. split; [now right|]. split; [reflexivity|]. split; [exact Hnn|].
+      assert (Hi : f64_is_inf bits = true) by lia. cbn [xnum_of].
+      destruct (xnum_of_f64 bits) as [|sg|mm ee] eqn:Ex.
+      * apply xnum_of_f64_nan in Ex. congruence.
+      * destruct sg; reflexivity.
+      * exfalso. assert (Hx : xnum_of_f64 bits = XInf (f64_sign bits)) by (apply xnum_of_f64_inf; auto). congruence.
   - discriminate.
 Qed.
 
